@@ -68,6 +68,8 @@ func (s *Sched) Hook(pid int) hookfs.Hook {
 }
 
 func (s *Sched) proc(pid int) *proc {
+	s.mu.Lock()
+	defer s.mu.Unlock()
 	if p, ok := s.byID[pid]; ok {
 		return p
 	}
@@ -94,7 +96,7 @@ func (s *Sched) Go(pid int, body func()) {
 // Call logs inv, runs f (which passes through the gates), logs res.  The inv
 // gate is itself a schedulable step, so invocation order is part of the schedule.
 func (s *Sched) Call(pid int, op string, arg any, f func() string) {
-	p := s.byID[pid]
+	p := s.proc(pid)
 	s.park(p, &hookfs.Op{Kind: "inv:" + op})
 	s.Log = append(s.Log, Event{P: pid, Ev: "inv", Kind: op, Arg: arg})
 	v := f()
@@ -107,7 +109,10 @@ func (s *Sched) Park(pid int, kind string) {
 	if !s.on {
 		return
 	}
-	if p, ok := s.byID[pid]; ok {
+	s.mu.Lock()
+	p, ok := s.byID[pid]
+	s.mu.Unlock()
+	if ok {
 		s.park(p, &hookfs.Op{Kind: "yield:" + kind})
 	}
 }
